@@ -302,6 +302,9 @@ def _pattern_test(subject, pat):
         return ast.Compare(left=copy.deepcopy(subject), ops=[ast.Is()], comparators=[ast.Constant(pat.value)]), None
     if isinstance(pat, ast.MatchAs) and pat.pattern is None:
         return True, pat.name
+    if isinstance(pat, ast.MatchClass) and not pat.patterns and not pat.kwd_patterns and isinstance(pat.cls, (ast.Name, ast.Attribute)):
+        # `case K():` is an isinstance test (subclass instances match too)
+        return ast.Call(func=ast.Name(id="isinstance", ctx=ast.Load()), args=[copy.deepcopy(subject), copy.deepcopy(pat.cls)], keywords=[]), None
     if isinstance(pat, ast.MatchOr):
         tests = []
         for p in pat.patterns:
